@@ -220,6 +220,11 @@ def c_binary_sign(ctx, it, cfg):
             return array(ctx, 'effDiff', s.shape, fact=lambda v, *i: v > 0)
     m.fields['matrixParameters'].effectiveDiffusion = EffDiff()
     T = real(ctx, 'T', lambda v: v > 0)
+    nr = it.load(NR).env
+    ar = prm.shapeFactor.aspectRatio(pd.fields['Rcrit'].get(n, 0))
+    chemDG, volDG, _ = nr['volumetricDrivingForce'](th, x, T, prm, ar, False)
+    Rc, Gc = nr['nucleationBarrier'](volDG, prm, ar)
+    ctx.prove('canary/never-unclamped', not_(and_(volDG > 0, Rc > prm.fields['Rmin'])), expect='refuted')
     m._createLookupBinary(T)
     idx = m.fields['RdrivingForceIndex'].get(0)
     g = seen[1][1]
@@ -237,13 +242,21 @@ def c_binary_sign(ctx, it, cfg):
     # growth sign against the critical radius
     Y = mk_slice(ctx, it, 1, 1)
     Y.fields['composition'] = NP.array([[x]])
-    nr = it.load(NR).env
-    ar = prm.shapeFactor.aspectRatio(pd.fields['Rcrit'].get(n, 0))
-    chemDG, volDG, _ = nr['volumetricDrivingForce'](th, x, T, prm, ar, False)
-    Rc, Gc = nr['nucleationBarrier'](volDG, prm, ar)
     growth = m._singleGrowthBinary(0, Y)
     unclamped = and_(volDG > 0, Rc > prm.fields['Rmin'], some_stable)
-    forall(ctx, 'stable-classes-above-the-critical-radius-grow', 0, nb, lambda i: implies(and_(unclamped, i > idx, Rb.get(i) > Rc), growth.get(i) > 0))
-    forall(ctx, 'stable-classes-below-the-critical-radius-shrink', 0, nb, lambda i: implies(and_(unclamped, i > idx, Rb.get(i) < Rc), growth.get(i) < 0))
-    ctx.prove('canary/never-unclamped', not_(unclamped), expect='refuted')
+    xa_raw, fg = seen[1][1], prm.shapeFactor.f * prm.fields['_gamma']
+
+    def chain(above):
+        def body(i):
+            R, gi, ti = Rb.get(i), g.get(i), tab.get(i, 0)
+            hyp = and_(unclamped, i > idx, (R > Rc) if above else (R < Rc))
+            return (hyp,
+                    eq(Rc * volDG, 2 * fg),                                                   # critical radius (unclamped)
+                    eq(gi * R, VmB * (es * R + 2 * fg)),                                      # Gibbs-Thomson energy of this class
+                    (gi < VmB * (volDG + es)) if above else (gi > VmB * (volDG + es)),        # ... compared with g(R*) = chemical driving force
+                    (ti < x) if above else (ti > x),                                          # interface contract: interfacial composition vs matrix composition
+                    (growth.get(i) > 0) if above else (growth.get(i) < 0))
+        return body
+    steps(ctx, 'stable-classes-above-the-critical-radius-grow', 0, nb, chain(True))
+    steps(ctx, 'stable-classes-below-the-critical-radius-shrink', 0, nb, chain(False))
     ctx.prove('canary/index-always-zero', eq(idx, 0), expect='refuted')
